@@ -7,6 +7,7 @@ package sm2_test
 
 import (
 	"bytes"
+	"math/big"
 	"encoding/hex"
 	"encoding/json"
 	"fmt"
@@ -27,15 +28,18 @@ var c13IdLens = []int{0, 1, 16, 31, 32, 53, 54, 55, 56, 62, 63, 64, 117, 118, 11
 
 func TestVerif_C13_ZA(t *testing.T) {
 	rec := stats.Get("C13", "za")
-	rec.Rule("rapid: id length from {0,1,16,31,32,53..56,62..64,117..120 (SM3 padding edges of the 2+len+192-byte preimage), 8190,8191,8192,8193,10000,70000} or uniform 0..300; public key of a generated private key. Oracle: ZA = sm3ref(ENTL||id||a||b||Gx||Gy||xA||yA) with constants from GM/T 0003.5 written out in the harness; len(id) >= 8192 -> error and nil; inputs unmodified. Non-trivial: id length >= 8190 or (2+len+192) mod 64 in 55..64 or 0; distinct by (id,key).")
+	rec.Rule("rapid: id length from {0,1,16,31,32,53..56,62..64,117..120 (SM3 padding edges of the 2+len+192-byte preimage), 8190,8191,8192,8193,10000,70000} or uniform 0..300 or uniform 0..8300; public key of a generated private key. Oracle: ZA = sm3ref(ENTL||id||a||b||Gx||Gy||xA||yA) with constants from GM/T 0003.5 written out in the harness; len(id) >= 8192 -> error and nil; inputs unmodified. Non-trivial: id length >= 8190 or (2+len+192) mod 64 in 55..64 or 0; distinct by (id,key).")
 	t.Cleanup(stats.FlushAll)
 	rapid.Check(t, func(t *rapid.T) {
 		r := gen.Rand(t, "seed")
 		var n int
-		if gen.Bool(t, "listed") {
-			n = rapid.SampledFrom(c13IdLens).Draw(t, "idlen")
-		} else {
-			n = gen.Int(t, "idlenU", 0, 300)
+		switch gen.Pick(t, "idlenClass", "listed", "listed", "short", "any") {
+		case "listed":
+			n = c13IdLens[gen.Uniform(t, "idlen", 0, len(c13IdLens)-1)]
+		case "short":
+			n = gen.Uniform(t, "idlenU", 0, 300)
+		default:
+			n = gen.Uniform(t, "idlenA", 0, 8300)
 		}
 		id := gen.RandBytes(r, n)
 		d, _, _ := sm2gen.PrivKey(t, "d")
@@ -207,4 +211,42 @@ func TestVerif_C13_OpenSSLVectors(t *testing.T) {
 			rec.Sample("vector", map[string]interface{}{"id": v.Id, "msg": v.Msg, "px": v.Px, "r": v.R, "s": v.S})
 		}
 	}
+}
+
+
+// Complete sweep of the id length (thorough: every length 0..8200; quick: every 16th and the neighbourhood of 8192).
+func TestVerif_C13_IdLengthSweep(t *testing.T) {
+	rec := stats.Get("C13", "idlen-sweep")
+	rec.Exhaustive(true)
+	rec.Rule("complete enumeration of the id length: thorough every length 0..8200 (sharded), quick every 16th length plus 8180..8200; fixed key, pseudo-random id bytes. Oracle: ZA equals the reference for lengths < 8192 and is refused from 8192 on. Every case non-trivial; distinct by length.")
+	t.Cleanup(stats.FlushAll)
+	d := new(big.Int).SetBytes(bytes.Repeat([]byte{0x3c}, 32))
+	d.Mod(d, sm2gen.NM2).Add(d, big.NewInt(1))
+	px, py, _ := sm2gen.Pub(d)
+	id := make([]byte, 8200)
+	for i := range id {
+		id[i] = byte(i*89 + 3)
+	}
+	si, sn := vt.Shard()
+	for n := 0; n <= 8200; n++ {
+		if !vt.Thorough() && n%16 != 0 && n < 8180 {
+			continue
+		}
+		if n%sn != si {
+			continue
+		}
+		rec.Enumerated(1)
+		za, err := sm2.ZA(id[:n], px, py)
+		want, ok := sm2ref.ZA(id[:n], px, py)
+		if !ok {
+			if err == nil || za != nil {
+				vt.Fail(t, rec, "C13:za:accepts-long-id", "ZA accepted an id of %d bytes", n)
+			}
+			continue
+		}
+		if err != nil || !bytes.Equal(za, want) {
+			vt.Fail(t, rec, "C13:za:value", "ZA wrong for an id of %d bytes (err=%v)", n, err)
+		}
+	}
+	rec.Sample("sweep", map[string]interface{}{"id_lengths": "0..8200", "px": stats.Hex(px)})
 }
